@@ -5,6 +5,7 @@ package main
 import (
 	"os"
 	"fmt"
+	"go/token"
 	"go/types"
 	"sort"
 	"strings"
@@ -547,6 +548,43 @@ func pkgOfFn(fn *ssa.Function) string {
 	return ""
 }
 
+// countedLoopVar: the unique integer phi of loop header b whose entry value is the constant 0 and whose back-edge value is
+// itself plus the constant 1 (nil when there is none or more than one).
+func countedLoopVar(b *ssa.BasicBlock) *ssa.Phi {
+	var found *ssa.Phi
+	for _, in := range b.Instrs {
+		phi, ok := in.(*ssa.Phi)
+		if !ok {
+			break
+		}
+		if bt, ok := phi.Type().Underlying().(*types.Basic); !ok || bt.Info()&types.IsInteger == 0 {
+			continue
+		}
+		zero, step := false, false
+		for _, e := range phi.Edges {
+			if c, ok := e.(*ssa.Const); ok && c.Value != nil && c.Value.String() == "0" {
+				zero = true
+				continue
+			}
+			if bo, ok := e.(*ssa.BinOp); ok && bo.Op == token.ADD && bo.X == phi {
+				if c, ok := bo.Y.(*ssa.Const); ok && c.Value != nil && c.Value.String() == "1" {
+					step = true
+					continue
+				}
+			}
+			zero, step = false, false
+			break
+		}
+		if zero && step && len(phi.Edges) == 2 {
+			if found != nil {
+				return nil
+			}
+			found = phi
+		}
+	}
+	return found
+}
+
 // resolveLocal maps a source-level name to its current value at block b.
 func (x *Exec) resolveLocal(fr *Frame, st *State, b *ssa.BasicBlock, name string) *Val {
 	if name == "\\i" {
@@ -556,7 +594,12 @@ func (x *Exec) resolveLocal(fr *Frame, st *State, b *ssa.BasicBlock, name string
 				return &Val{K: VInt, T: Add(v.T, Num(1))}
 			}
 		}
-		sfail("\\i used in a loop that is not a range-over-slice loop")
+		// a counted loop `for i := 0; ...; i++`: its induction variable is the number of completed iterations (the contract then
+		// survives a rewrite of the range loop as an indexed loop)
+		if phi := countedLoopVar(b); phi != nil {
+			return fr.regs[phi]
+		}
+		sfail("\\i used in a loop that is neither a range-over-slice loop nor a loop counting up from 0 by 1")
 	}
 	if name == "\\yielded" {
 		// the set of keys the map iterator of this loop has yielded so far
